@@ -525,8 +525,9 @@ Proof.
   destruct (mem f (susp s)); [reflexivity|]. cbn [file_count]. rewrite String.eqb_refl.
   rewrite (filter_nil (start_pass s m0 f)); [reflexivity|].
   intros sp _. unfold start_pass, due, start_guard. rewrite Hl.
-  destruct (next_time sp (60 * m0 - 1) <=? m0) eqn:E; [|reflexivity]. apply Z.leb_le in E.
-  replace (l <? next_time sp (60 * m0 - 1)) with false by (symmetry; apply Z.ltb_ge; lia).
+  destruct (next sp (60 * m0 - 1)) as [n|]; [|reflexivity]. cbn [next_or_zero].
+  destruct (n <=? m0) eqn:E; [|reflexivity]. apply Z.leb_le in E.
+  replace (l <? n) with false by (symmetry; apply Z.ltb_ge; lia).
   rewrite !andb_false_r. reflexivity.
 Qed.
 
